@@ -188,6 +188,35 @@ def read_tree(root, skip_asc=True):
     return out
 
 
+def add_file_symlinks(rng, root, tree, n=1, outside=None):
+    """create up to n symbolic links to regular files of `tree` (relative or absolute targets; target inside the tree or,
+    when `outside` is a directory, a copy placed there).  Returns {link rel: target rel-or-abs}; `tree` gets the link with the
+    target's bytes (a link to a file is recorded like the file it points to)."""
+    files = sorted(k for k, v in tree.items() if v is not None)
+    out = {}
+    for i in range(n):
+        if not files:
+            break
+        t = rng.choice(files)
+        par = rng.choice([""] + sorted(k for k, v in tree.items() if v is None))
+        rel = (par + "/" if par else "") + "lnk%d-" % i + os.path.basename(t)[:20]
+        if rel in tree or os.path.lexists(os.path.join(root, rel)):
+            continue
+        if outside and rng.random() < 0.3:
+            tp = os.path.join(outside, "target%d.bin" % i)
+            with open(tp, "wb") as f:
+                f.write(tree[t])
+            target = tp
+        elif rng.random() < 0.5:
+            target = os.path.join(root, t)
+        else:
+            target = os.path.relpath(os.path.join(root, t), os.path.dirname(os.path.join(root, rel)))
+        os.symlink(target, os.path.join(root, rel))
+        tree[rel] = tree[t]
+        out[rel] = target
+    return out
+
+
 def set_mtimes(root, rng=None, lo=978307200, hi=1893456000, fixed=None):
     """bottom-up so that directory mtimes stick; returns {rel: epoch}"""
     out = {}
